@@ -1020,13 +1020,16 @@ def run(ctx: Ctx):
         "a non-local datastore root is simulated by giving lsst.resources' mem:// scheme a directory-backed implementation "
         "(harness/impl/c17_impl.py); no real object store exists in the sandbox and a local root never uses the file cache",
         "SQLite executes the summary / chain / dataset statements as written, serially; concurrent writers of the registry belong to C20",
+        "in the Butler-level model a file's content is identified by its size (the harness gives different contents of one cache name "
+        "different sizes) and one virtual second passes before every move_to_cache / find_in_cache (no two cache files share a ctime)",
         "collections, dataset types and datasets are abstracted to small numbers; chains are one level deep in the registry model; "
         "nested caching contexts, the dataset-type cache and the dimension-record cache are compared cached-vs-uncached only",
     ]
     ctx.cov["rule"] = (
         "a manager history (two real DatastoreCacheManager objects on one directory, virtual clock) counts as non-trivial only if an "
         "expiry evicted at least one file AND find_in_cache both hit and missed; a Butler history only if a get was served from the "
-        "cache (no remote read) AND a removed dataset was requested; a registry history only if a write happened inside a caching "
+        "cache (no remote read) AND a removed dataset was requested (modelled Butler histories additionally: an expiry or another "
+        "process evicted a cached file); a registry history only if a write happened inside a caching "
         "context after a cached read AND a later query in that context returned rows; distinct by the hash of the history"
     )
     from harness.translators import cache_expire
